@@ -15,7 +15,8 @@ fn gen_cfg(rng: &mut Rng) -> Cfg {
         ext: if rng.chance(1, 2) { "log".to_string() } else { rng.pick(EXTS).to_string() },
         roll_by: *rng.pick(&[verif::RollBy::Day, verif::RollBy::Hour, verif::RollBy::Minute]),
         reuse: rng.bool(),
-        max_files: *rng.pick(&[1usize, 1, 2, 2, 3, 4, 5]),
+        // (one configuration in sixteen: "never delete" as `usize::MAX`, or half of it)
+        max_files: if rng.chance(1, 16) { *rng.pick(&[usize::MAX, usize::MAX / 2]) } else { *rng.pick(&[1usize, 1, 2, 2, 3, 4, 5]) },
         max_size: *rng.pick(&[20usize, 40, 60, 90, 150, 1 << 20]),
         sep: vec![b'\n'],
     }
@@ -80,7 +81,7 @@ fn gen_history_c11(rng: &mut Rng, tier: Tier) -> Case {
     }
     // members left by earlier runs (never more than max_files: see `rule` in props/C11.json), possibly written
     // under another rolling period
-    let members = rng.range(0, cfg.max_files as u64) as usize;
+    let members = rng.range(0, cfg.max_files.min(6) as u64) as usize;
     let mut t = now;
     for _ in 0..members {
         t = advance(rng, cfg.roll_by, t, 6);
